@@ -4,6 +4,9 @@
 #include "stream.h"
 #include <fcntl.h>
 #include <stdio.h>
+#ifdef OVNI_VERIF
+#include <stdlib.h>
+#endif
 #include <string.h>
 #include <sys/mman.h>
 #include <sys/stat.h>
@@ -57,6 +60,31 @@ load_stream_fd(struct stream *stream, int fd)
 		err("stream %s is empty", stream->path);
 		return -1;
 	}
+
+#ifdef OVNI_VERIF
+	/* Verification hook: load the stream into a heap buffer of the exact
+	 * size, so AddressSanitizer sees any access outside the stream. */
+	if (getenv("OVNI_VERIF_HEAPBUF") != NULL) {
+		uint8_t *heapbuf = malloc((size_t) st.st_size);
+		if (heapbuf == NULL) {
+			err("malloc failed:");
+			return -1;
+		}
+		size_t done = 0;
+		while (done < (size_t) st.st_size) {
+			ssize_t n = pread(fd, heapbuf + done,
+					(size_t) st.st_size - done, (off_t) done);
+			if (n <= 0) {
+				err("pread failed:");
+				return -1;
+			}
+			done += (size_t) n;
+		}
+		stream->buf = heapbuf;
+		stream->size = st.st_size;
+		return 0;
+	}
+#endif
 
 	int prot = PROT_READ | PROT_WRITE;
 	stream->buf = mmap(NULL, (size_t) st.st_size, prot, MAP_PRIVATE, fd, 0);
